@@ -404,7 +404,7 @@ class RatQuad(Covariance):
 
     .. math::
 
-        (1 + \frac{||x-y||^2}{2 \alpha l^2})^{-\alpha l}
+        (1 + \frac{||x-y||^2}{2 \alpha l^2})^{-\alpha}
 
     This class can be used as a function curry, meaning it can be called
     like a function on two inputs `x` and `y`.
